@@ -347,6 +347,7 @@ func c04Gen(t *rapid.T) C04Case {
 	var c C04Case
 	n := rapid.SampledFrom([]int{0, 1, 2, 2, 3, 3, 3, 4, 4, 5, 6}).Draw(t, "containers")
 	span := rapid.SampledFrom([]int64{3, 10, 50}).Draw(t, "span")
+	sameText := rapid.IntRange(0, 3).Draw(t, "same-text-everywhere") == 0
 	for i := 0; i < n; i++ {
 		m := rapid.IntRange(0, 8).Draw(t, "records")
 		if rapid.IntRange(0, 7).Draw(t, "long") == 0 {
@@ -365,6 +366,11 @@ func c04Gen(t *rapid.T) C04Case {
 		lines := make([]dl.Line, m)
 		for j := range lines {
 			lines[j] = dl.Line{TS: tss[j], Msg: fmt.Sprintf("c%d#%d", i, j), Typ: typ}
+			if sameText {
+				// replicas log the same words at the same instant, a container repeats itself:
+				// records are told apart by where they come from and in which order, not by text
+				lines[j].Msg = rapid.SampledFrom([]string{"ping", "ok", "ping"}).Draw(t, "same-text")
+			}
 			if mixed {
 				lines[j].Typ = rapid.SampledFrom([]byte{1, 2}).Draw(t, "line-stream")
 			}
